@@ -2,7 +2,7 @@
     Property theorems only; every proof is [exact <lemma>] or a closed computation
     on the tables regenerated from /repo. *)
 From Coq Require Import List Arith Bool String Ascii ZArith NArith Sorted.
-From Naunet Require Import Lib.ListX Lib.PyStr Model.Species Model.SpeciesSpec Proofs.SpeciesProofs Proofs.SpeciesRoundtrip.
+From Naunet Require Import Lib.ListX Lib.PyStr Model.Species Model.SpeciesSpec Proofs.SpeciesProofs Proofs.SpeciesRoundtrip Proofs.DigitsProofs Proofs.SpeciesSurface.
 From NaunetGen Require Import Tables.
 Import ListNotations.
 Open Scope string_scope.
@@ -170,6 +170,51 @@ Proof.
     rewrite E in R. destruct R as (sp & Hp & Hc & Hs & Hg & _ & Hn). exists sp. repeat split; auto.
 Qed.
 Print Assumptions roundtrip_instances.
+
+(** phase and gas-phase counterpart.  An ice species is written prefix + group
+    digits + gas-phase name (+ charge signs); when the group is written without a
+    leading zero and the prefix text does not occur again, the species is read as
+    ice of that group and its gas-phase counterpart is exactly the rest of the name.
+    (print_of_int_digits: Python's str(int(d)) gives d back for such digits.) *)
+Theorem print_of_int_digits : forall d, canonical d -> print_N (digits_val d 0) = str d.
+Proof. exact print_digits_lemma. Qed.
+Print Assumptions print_of_int_digits.
+
+Theorem ice_species_counterpart : forall T Y name d0 its chg,
+  wf_tables T Y -> t_replacement T = [] ->
+  y_grain Y <> "" -> y_surface Y <> "" ->
+  memb String.eqb (y_surface Y) (t_pseudo T) = false ->
+  chars name = (chars (y_surface Y) ++ d0 ++ render its ++ chg)%list ->
+  parsename_of (chars name) = render ((chars (y_surface Y), d0) :: its) ->
+  Forall (fun it : item => In (fst it) (map txt (components T Y)) /\ fst it <> []) ((chars (y_surface Y), d0) :: its) ->
+  unambiguous (components T Y) (render ((chars (y_surface Y), d0) :: its)) (positions 0 ((chars (y_surface Y), d0) :: its)) ->
+  group_ok d0 ->
+  (forall st, ~ occ (chars (y_surface Y) ++ d0)%list (render its ++ chg)%list st) ->
+  forall sp, parse_species T Y name = inr sp ->
+  sp_surface sp = Some (group_of d0) /\ is_surface sp = true /\ gasname sp = str (render its ++ chg)%list.
+Proof. exact surface_counterpart_lemma. Qed.
+Print Assumptions ice_species_counterpart.
+
+(* non-vacuity on the live tables: ice water in group 12, and the quirk the premise
+   excludes (a group written with a leading zero is read as group 1, whose prefix text "#1" does not occur in the name: nothing is removed) *)
+Theorem ice_counterpart_instances :
+  (forall sp, parse_species T0 Y0 "#12H2O" = inr sp ->
+     sp_surface sp = Some 12%N /\ is_surface sp = true /\ gasname sp = "H2O") /\
+  (match parse_species T0 Y0 "#01CO" with inr sp => gasname sp | inl _ => "" end) = "#01CO".
+Proof.
+  split.
+  - intros sp Hsp.
+    set (its := [(chars "H", chars "2"); (chars "O", [])] : list item).
+    assert (items_ok ((chars "#", chars "12") :: its) = true) as H by (vm_compute; reflexivity).
+    destruct (items_ok_sound _ H) as [H1 H2].
+    assert (Hno : no_occb (chars "#" ++ chars "12")%list (render its ++ [])%list = true) by (vm_compute; reflexivity).
+    pose proof (ice_species_counterpart T0 Y0 "#12H2O" (chars "12") its [] default_tables_wf eq_refl
+                  ltac:(discriminate) ltac:(discriminate) eq_refl eq_refl eq_refl H1 H2
+                  ltac:(right; split; [reflexivity | discriminate]) (no_occb_sound _ _ Hno) sp Hsp) as R.
+    exact R.
+  - vm_compute. reflexivity.
+Qed.
+Print Assumptions ice_counterpart_instances.
 
 (* known finding: the excited-state label is recorded as an element *)
 Theorem star_label_refuted : counts_of "H2*" = Some [("H", 2%N); ("*", 1%N)].
